@@ -2,7 +2,7 @@
   C11 — invalid build graphs are rejected before anything runs; valid ones are accepted.
   Property theorems only. Model: GrogModel/Analysis.lean, GrogModel/Paths.lean.
   Specification (`Spec.valid`, the property's list of defects): GrogModel/Lemmas/AnalysisSpec.lean.
-  Helper lemmas: GrogModel/Lemmas/{AnalysisGraph,Paths,AnalysisSpec,AnalysisConstraints}.lean.
+  Helper lemmas: GrogModel/Lemmas/{AnalysisGraph,Paths,AnalysisSpec,AnalysisCache,AnalysisConstraints}.lean.
 
   `analyze ws ps` is what `grog build` / `grog check` decide about the packages `ps` in the workspace
   with root `ws` before anything is executed.
@@ -49,15 +49,25 @@ theorem ordered_iff (ns : List Node) (hnd : NoDuplicate ns) (hdef : DepsDefined 
     ordered Cfg.current ns a b = true ↔ a = b ∨ Reach ns a b ∨ Reach ns b a := by
   rw [Analysis.ordered_iff hnd hdef]; simp [Cfg.current, Ordered]
 
-/-- the memo-free ancestor search computes exactly the transitive dependencies -/
-theorem ancestorSet_eq_reach (ns : List Node) (hnd : NoDuplicate ns) (hdef : DepsDefined ns) (a b : Label) :
-    b ∈ ancestors ns a ↔ Reach ns a b :=
-  mem_ancestors hnd hdef
+/-- `getAncestorSet` returns exactly the transitive dependencies, whatever (correct) memo table it is
+    given, and leaves a correct memo table behind -/
+theorem ancestorSet_eq_reach (ns : List Node) (hnd : NoDuplicate ns) (hdef : DepsDefined ns)
+    (c : Cache) (hc : CacheOK ns c) (a : Label) :
+    (∀ b, b ∈ (getAncestorSet ns c a).1 ↔ Reach ns a b) ∧ CacheOK ns (getAncestorSet ns c a).2 :=
+  getAncestorSet_spec hnd hdef hc a
+
+example : CacheOK [] [] := cacheOK_nil []
+
+/-- the memo table of `getAncestorSet` never changes an answer: conflict detection with the table
+    (what the code does, `hasConflictC`) equals conflict detection without it -/
+theorem ancestorCache_transparent (ns : List Node) (hnd : NoDuplicate ns) (hdef : DepsDefined ns) (cfg : Cfg) :
+    hasConflictC cfg ns = hasConflict cfg ns :=
+  hasConflictC_eq hnd hdef cfg
 
 /-- conflict detection ⇔ there are two different targets, unordered, with overlapping outputs -/
 theorem conflict_iff (ns : List Node) (hnd : NoDuplicate ns) (hdef : DepsDefined ns) (hrel : RelOuts ns) :
-    hasConflict Cfg.current ns = true ↔ Conflict ns :=
-  hasConflict_iff hnd hdef hrel
+    hasConflictC Cfg.current ns = true ↔ Conflict ns := by
+  rw [hasConflictC_eq hnd hdef]; exact hasConflict_iff hnd hdef hrel
 
 /-! ### the property -/
 
